@@ -200,6 +200,18 @@ Theorem C18_counter_sums : forall rows k,
 Proof. exact counter_rows_sum. Qed.
 Print Assumptions C18_counter_sums.
 
+(* direct mode: the producers of a topic are the configured nsqds whose /stats lists it and whose
+   /info answers; the same error rule *)
+Theorem C18_direct_topic_producers : forall t ups,
+  let f := map (direct_topic_fetch t) ups in
+  (stage1_producers (SDirectTopic t ups) = AHard <-> forall u, In u f -> failed u = true) /\
+  (forall v n, stage1_producers (SDirectTopic t ups) = AOk v n ->
+     n = nfailed f /\
+     forall p, In p v <-> exists ad d i, In (ad, d) ups /\ dn_stats_ok d = true /\ smem t (dn_topics d) = true /\
+                                        dn_info d = Some i /\ p = direct_pinfo ad i).
+Proof. exact direct_topic_producers_spec. Qed.
+Print Assumptions C18_direct_topic_producers.
+
 (* ---- the order in which the upstreams answer does not matter (the code merges each answer under
    a lock in the completion order of its fetch goroutines: a permutation of the upstream list) *)
 Theorem C18_order_independent_channels : forall ups ups' sel k, Permutation ups ups' ->
